@@ -111,6 +111,8 @@ def run_case(tap, g, idx, spec):
     ts_est = H**2 / (9.0 * ph["soil"]["conductivity"] / ph["soil"]["rho_cp"])
     n_months = max(1, min(n_months, int(19.0 * ts_est / (744.0 * 3600.0))))
     desc = GL.draw_desc(g)
+    if g.random() < 0.3:
+        desc["form"] = "int"  # whole watts as Python ints (a JSON input written without decimal points)
     loads = GL.make_loads(desc)
     case = {"phys": ph, "H": H, "grid": [nx, ny], "flow": flow, "n_months": n_months, "loads": desc}
 
